@@ -10,9 +10,17 @@
     clone <c> | combine <a> <b>                      → c<k> / <error>
 
     <sym>      s<k> | g<k>                 (g = subscripted form of a generic class)
-    <factory>  f<fid>/<aid>/<params> (r<fid>/… = the body raises)   aid = identity of the annotated callable; params: `,`-separated `_` (unannotated) | <sym>, `-` = none
+    <factory>  f<fid>/<aid>/<params> (r<fid>/… = the body raises, z<fid>/… = the factory returns None)
+               aid = identity of the annotated callable; params: `,`-separated `_` (unannotated) | <sym>, `-` = none
     <defs>     `;`-separated s<k>=<inj>, `-` = none;  <inj> = <factory> | n<name>@<factory> | n<name>!attr | n<name>!mod
     <args>     `,`-separated x<id>:<ty>, `-` = none
+
+  A factory that returns None is, for the container, a factory like any other: di.py stores what the call returned and
+  tests `found_symbol not in self.__instances` (di.py:98), so the stored None is the instance of that binding generation.
+  The model keeps the creation event (fresh id) as it does for every call; only the *display* differs, because Python's
+  None has no identity of its own: an instance made by a `z` factory prints as `none/n<k>` where `k` is the number of
+  factory calls that returned so far (so a factory that is run again shows up at once), and as `none` where it is an
+  argument of another instance.
 -/
 import Tranp.Driver.Common
 import Tranp.Model.DI
@@ -36,7 +44,7 @@ def parseParams (s : String) : Option (List (Option SymRef)) :=
 def parseFactory (s : String) : Option Factory :=
   match s.splitOn "/" with
   | [f, q, ps] =>
-    if !(f.startsWith "f" || f.startsWith "r") then none else
+    if !(f.startsWith "f" || f.startsWith "r" || f.startsWith "z") then none else
     match natOf (f.drop 1).toString, natOf q, parseParams ps with
     | some fid, some aid, some params => some ⟨fid, aid, params, f.startsWith "r"⟩
     | _, _, _ => none
@@ -91,29 +99,61 @@ def parseOp : List String → Option Op
   | ["combine", a, b] => do some (.combine (← natOf a) (← natOf b))
   | _ => none
 
-def showVal : Val → String
-  | .inst i => s!"i{i}"
+/-- display state: the factory ids declared with `z` (return None) and the ids of the instances they made -/
+structure DState where
+  σ : State := State.init
+  noneF : List Nat := []
+  noneI : List Nat := []
+
+/-- the `z<fid>/` factory texts of an op line -/
+def noneFidsOf (toks : List String) : List Nat :=
+  toks.flatMap (fun t =>
+    (t.split (fun c => c == ';' || c == '=' || c == '@')).toList.filterMap (fun piece =>
+      let p := piece.toString
+      if p.startsWith "z" then
+        match (p.drop 1).toString.splitOn "/" with
+        | n :: _ :: _ => natOf n
+        | _ => none
+      else none))
+
+def showVal (noneI : List Nat) : Val → String
+  | .inst i => if noneI.contains i then "none" else s!"i{i}"
   | .ext i => s!"x{i}"
 
-def showObj (o : Obj) : String := s!"i{o.id}:f{o.fid}({",".intercalate (o.args.map showVal)})"
+def showObj (d : DState) (o : Obj) : String :=
+  if d.noneF.contains o.fid then s!"none/n{d.σ.next}"
+  else s!"i{o.id}:f{o.fid}({",".intercalate (o.args.map (showVal d.noneI))})"
 
-def showOut : Out → String
+def showOut (d : DState) : Out → String
   | .ok => "ok"
   | .bool b => if b then "true" else "false"
-  | .obj o => showObj o
+  | .obj o => showObj d o
   | .cont k => s!"c{k}"
   | .err e => e.toString
   | .bad => "bad-op"
 
-def stepLine (σ : State) : List String → State × String
-  | ["reset"] => (State.init, "ok")
+/-- ids of the instances made by `z` factories: whatever a resolve creates is stored in the container it was created in
+    (di.py:100) before the op returns, an invoke hands its product out directly -/
+def noteNone (noneF : List Nat) (σ : State) (out : Out) (acc : List Nat) : List Nat :=
+  if noneF.isEmpty then acc else
+  let stored := σ.conts.flatMap (fun c => c.instances.items.filterMap (fun kv =>
+    if noneF.contains kv.2.fid && !acc.contains kv.2.id then some kv.2.id else none))
+  let direct := match out with
+    | .obj o => if noneF.contains o.fid && !acc.contains o.id then [o.id] else []
+    | _ => []
+  acc ++ (stored ++ direct).eraseDups
+
+def stepLine (d : DState) : List String → DState × String
+  | ["reset"] => ({}, "ok")
   | toks =>
     match parseOp toks with
-    | none => (σ, "bad-op")
+    | none => (d, "bad-op")
     | some op =>
-      let (σ', out) := step fuel σ op
-      (σ', showOut out)
+      let (σ', out) := step fuel d.σ op
+      let noneF := (d.noneF ++ (noneFidsOf toks).filter (fun n => !d.noneF.contains n)).eraseDups
+      let d' : DState := { σ := σ', noneF := noneF, noneI := noteNone noneF σ' out d.noneI }
+      (d', showOut d' out)
 
-def run : IO Unit := runFamily stepLine State.init
+def run : IO Unit := runFamily stepLine ({} : DState)
 
 end Tranp.Driver.DI
